@@ -9,11 +9,11 @@ from oasmc.engine import digest_arrays
 ID = "C16"
 RULE = (
     "complete product beam geometry x ny x side x structural model x load factor x fuel (mass, reserve) x point-mass set (number, placement) "
-    "on the real SpatialBeamAlone group; oracle = sums and moments computed by the harness from the group's own nodes, section areas and "
+    "on the real SpatialBeamAlone group, each state a history on ONE live Problem (initial point, engines off, load factor 0, load factor restored, point masses 0, fuel mass 0) with every identity re-verified after each transition; oracle = sums and moments computed by the harness from the group's own nodes, section areas and "
     "inputs; part aspoint: the same sums / moments for every surface inside a two-surface AerostructPoint (symmetry x model x inertial-load source per surface "
     "x load factor x equal/different ny); non-trivial = distinct configurations with non-zero mass"
 )
-ASSUMPTIONS = ["finite alphabets; ny<=5, <=2 point masses", "g = 9.80665", "OpenMDAO/NumPy trusted"]
+ASSUMPTIONS = ["finite alphabets; ny<=5 in the complete product (7 thorough), single production-size beams up to 41 nodes, <=2 point masses", "g = 9.80665", "OpenMDAO/NumPy trusted"]
 BOUND = {"quick": "ny in {2,3} half / {3,5} full exhaustively + beams of 16 / 21 / 41 nodes", "thorough": "ny up to 7"}
 G0 = 9.80665
 TOL = 1e-10
